@@ -33,22 +33,142 @@ def descriptors(inp):
     return inp["tagpool"] if inp.get("tagpool") is not None else LEGACY
 
 
-def fresh(d):
-    """descriptor -> a new real Tag (new Term object as well)"""
+# ---------------------------------------------------------------- construction variants (HISTORIES.md section 2)
+# The *form* of a tag is how the Python object is made; it never changes what the tag is.  What counts as the same
+# tag is decided from the unchanged code: `SimpleEncoder` keys on `(tag.term, tag.value)`, so the class of the Tag
+# object (a subclass of `data.Tag`, with or without a field of its own) and the way it was made (constructor,
+# `model_validate`, `model_copy`) do not matter, and neither does the identity of the Term object.  The class of the
+# *Term* object does matter today (pydantic's `__eq__` demands equal classes): a term of a Term subclass is another
+# term than the plain Term with the same fields.  It is therefore part of the descriptor (`"termcls"`), i.e. of the
+# content (`read_back` records it), not a form.  Whether that is intended is not for the evaluation checks to pin:
+# generators give all descriptors with the same term fields the same `termcls` within one pool.
+FORMS = ["plain", "sub", "subx", "validate", "validate_obj", "copy", "deepcopy", "update"]
+TERM_MODES = ["fresh", "shared", "cross"]
+TERM_CLASSES = ["sub", "subx"]
+_CLASSES = {}
+
+
+def classes():
+    """subclasses of data.Tag / data.Term as a project would define them (made once per process)"""
+    if not _CLASSES:
+        from typing import Optional
+        from soundevent import data
+
+        class SubTag(data.Tag):
+            """a Tag with a convenience constructor, no field of its own"""
+
+            @classmethod
+            def of(cls, term, value):
+                return cls(term=term, value=value)
+
+        class SubTagX(data.Tag):
+            """a Tag with a field of its own"""
+            note: Optional[str] = None
+
+        class SubTerm(data.Term):
+            pass
+
+        class SubTermX(data.Term):
+            rank: Optional[str] = None
+        _CLASSES.update(SubTag=SubTag, SubTagX=SubTagX, SubTerm=SubTerm, SubTermX=SubTermX)
+    return _CLASSES
+
+
+def _term_kwargs(d):
+    from soundevent import data
+    kw = {}
+    for f, v in d["term"].items():
+        if f == "extra":
+            continue
+        fi = data.Term.model_fields.get(f)
+        kw[(fi.alias if fi is not None and fi.alias else f)] = v
+    for k, v in d["term"].get("extra", []):
+        kw[k] = v
+    return kw
+
+
+def fresh_term(d):
+    """descriptor -> a new Term object of the class the descriptor names (None for the deprecated `key=` path)"""
+    from soundevent import data
+    if "key" in d:
+        return None
+    cls = {None: data.Term, "sub": classes()["SubTerm"], "subx": classes()["SubTermX"]}[d.get("termcls")]
+    return cls(**_term_kwargs(d))
+
+
+def fresh(d, form=None, term=None):
+    """descriptor -> a new real Tag (new Term object as well, unless `term` hands over a live Term object with
+    the descriptor's term content).  `form` (one of FORMS, default the plain constructor) is how the object is made."""
     from soundevent import data
     with warnings.catch_warnings():
         warnings.simplefilter("ignore")
-        if "key" in d:
-            return data.Tag(key=d["key"], value=d["value"])
-        kw = {}
-        for f, v in d["term"].items():
-            if f == "extra":
-                continue
-            fi = data.Term.model_fields.get(f)
-            kw[(fi.alias if fi is not None and fi.alias else f)] = v
-        for k, v in d["term"].get("extra", []):
-            kw[k] = v
-        return data.Tag(term=data.Term(**kw), value=d["value"])
+        if form in (None, "plain") and term is None:
+            if "key" in d:
+                return data.Tag(key=d["key"], value=d["value"])
+            return data.Tag(term=fresh_term(d), value=d["value"])
+        if term is None:
+            term = data.Tag(key=d["key"], value=d["value"]).term if "key" in d else fresh_term(d)
+        value = d["value"]
+        C = classes()
+        if form in (None, "plain"):
+            return data.Tag(term=term, value=value)
+        if form == "sub":
+            return C["SubTag"].of(term, value)
+        if form == "subx":
+            return C["SubTagX"](term=term, value=value, note="n")
+        if form == "validate":          # from a dictionary; the term as a dictionary of its set fields where that
+            if type(term) is data.Term:  # keeps the content (aliases), else the object
+                td = {(data.Term.model_fields[f].alias or f) if f in data.Term.model_fields else f: v
+                      for f, v in {**{f: term.__dict__[f] for f in term.model_fields_set if f in term.__dict__},
+                                   **(term.__pydantic_extra__ or {})}.items()}
+                return data.Tag.model_validate({"term": td, "value": value})
+            return data.Tag.model_validate({"term": term, "value": value})
+        if form == "validate_obj":
+            return data.Tag.model_validate({"term": term, "value": value})
+        if form == "copy":
+            return data.Tag(term=term, value=value).model_copy()
+        if form == "deepcopy":
+            return data.Tag(term=term, value=value).model_copy(deep=True)
+        if form == "update":            # a tag of another value, revised
+            return data.Tag(term=term, value=value + "~").model_copy(update={"value": value})
+        raise ValueError(f"unknown tag form {form!r}")
+
+
+class Maker:
+    """builds the tags of one call.  `spec` (optional): {"vocab" | "ann" | "pred": form} how the Tag objects of the
+    vocabulary / the annotations / the predictions are made (FORMS) and {"vocab_term" | "ann_term" | "pred_term": mode}
+    where their Term objects come from: "fresh" a new Term per tag; "shared" one Term object per term content for all
+    tags of this call made that way; "cross" (annotations / predictions) the *Term object of a vocabulary tag* with
+    the same term content, preferably one whose value differs (the vocabulary must have been built before)."""
+
+    def __init__(self, descs, spec=None):
+        self.descs, self.spec = descs, spec or {}
+        self._shared, self._vocab = {}, []
+
+    def _tkey(self, d):
+        return jkey(content(d)["term"])
+
+    def make(self, role, t):
+        d = self.descs[t]
+        form, mode = self.spec.get(role), self.spec.get(role + "_term")
+        term = None
+        if mode == "shared":
+            term = self._shared.get(self._tkey(d))
+        elif mode == "cross" and role != "vocab":
+            k = self._tkey(d)
+            cands = [(tg, v) for (tk, v, tg) in self._vocab if tk == k]
+            other = [tg for tg, v in cands if v != str(d["value"])]
+            if cands:
+                term = (other or [tg for tg, _ in cands])[0].term
+        tag = fresh(d, form, term)
+        if mode == "shared" and term is None:
+            self._shared[self._tkey(d)] = tag.term
+        if role == "vocab":
+            self._vocab.append((self._tkey(d), str(d["value"]), tag))
+        return tag
+
+    def vocab(self, ids):
+        return [self.make("vocab", t) for t in ids]
 
 
 def read_back(tag):
@@ -62,6 +182,8 @@ def read_back(tag):
     extra = dict(getattr(t, "__pydantic_extra__", None) or {})
     for f in declared - set(TERM_FIELDS):            # a field the model does not know yet: still part of equality
         extra["+" + f] = t.__dict__.get(f)
+    if type(t).__name__ != "Term":                   # a Term subclass: another term for `__eq__` (see FORMS)
+        extra["+class"] = type(t).__name__
     term["extra"] = sorted([str(k), str(v)] for k, v in extra.items() if v is not None)
     return {"term": {k: v for k, v in term.items() if v is not None}, "value": str(tag.value)}
 
